@@ -33,7 +33,7 @@ Definition out_eqb (a b : out) : bool :=
   | OEvent s e, OEvent s' e' => (s =? s') && ev_eqb e e'
   | OApi a x, OApi a' x' => (a =? a') && apiret_eqb x x'
   | ONewSession r s, ONewSession r' s' => (r =? r') && (s =? s')
-  | OUnsupported, OUnsupported | OOutOfFuel, OOutOfFuel => true
+  | OUnsupported, OUnsupported | OOutOfFuel, OOutOfFuel | OTie, OTie => true
   | _, _ => false
   end.
 
@@ -43,7 +43,7 @@ Definition chan (o : out) : N * N :=
   | OResp r _ => (0, r) | ONewSession r _ => (0, r)
   | OWsAccept c | OWsSend c _ | OWsClose c => (1, c)
   | OEvent s _ => (2, s) | OApi a _ => (3, a)
-  | OUnsupported => (4, 0) | OOutOfFuel => (5, 0)
+  | OUnsupported => (4, 0) | OOutOfFuel => (5, 0) | OTie => (7, 0)
   end.
 Definition chan_le (a b : N * N) : bool := (fst a <? fst b) || ((fst a =? fst b) && (snd a <=? snd b)).
 Fixpoint insert_o (o : out) (l : list out) : list out :=
@@ -108,11 +108,32 @@ Definition collapse (ws : list N) (o : out) : out :=
 Definition gateway_view (asgi : bool) (ops : list op) (m : list (list out)) : list (list out) :=
   if asgi then map (map (collapse (ws_rids ops))) m else m.
 
+(* While time passes several causes of a session end can fall due at the same instant (heartbeat sweep, read timeout, poll
+   timeout); which one the asyncio loop serves first depends on how many internal hops each wake-up takes.  In steps
+   that only advance the clock the *reason* of a disconnect is therefore compared up to "ended by silence". *)
+Definition silence (o : out) : out :=
+  match o with
+  | OEvent s (EDisconnect (RTransportClose | RTransportError)) => OEvent s (EDisconnect RPingTimeout)
+  | _ => o
+  end.
+Definition is_adv (o : op) : bool := match o with OpAdvance _ => true | _ => false end.
+Fixpoint first_diff_ops (asgi : bool) (ps : list (N * N)) (i : N) (ops : list op) (m i' : list (list out)) : option N :=
+  match ops, m, i' with
+  | [], [], [] => None
+  | o :: ops', x :: m', y :: i'' =>
+    (* simultaneous timers under the asyncio loop: which wake-up is served first is not modelled (it depends on the number of
+       internal hops of each); the comparison of this history ends here *)
+    if asgi && existsb (fun z => match z with OTie => true | _ => false end) x then None else
+    let ok := if asgi then (if is_adv o then outs_eqb_bag ps (map silence x) (map silence y) else outs_eqb_bag ps x y) else outs_eqb x y in
+    if ok then first_diff_ops asgi ps (N.succ i) ops' m' i'' else Some i
+  | _, _, _ => Some i
+  end.
+
 (* one history: configuration, stimuli, and what the implementation emitted after each stimulus *)
 Definition check_hist_g (asgi : bool) (c : config * list op * list (list out)) : bool :=
   let '(cfg, ops, impl) := c in
-  match first_diff_by (if asgi then outs_eqb_bag (poll_sessions ops) else outs_eqb) 0
-                      (gateway_view asgi ops (snd (run_ops cfg ops (init cfg)))) impl with None => true | Some _ => false end.
+  match first_diff_ops asgi (poll_sessions ops) 0 ops (gateway_view asgi ops (snd (run_ops cfg ops (init cfg)))) impl with
+  | None => true | Some _ => false end.
 Definition check_hist := check_hist_g false.
 Definition check_hist_asgi := check_hist_g true.
 Definition diff_hist (c : config * list op * list (list out)) : option N * list (list out) :=
